@@ -203,12 +203,18 @@ def elements_preorder(tree, out=None):
     return out
 
 
+_SESSION_CACHE = {}
+
+
 def check(seq, labels, syntax, opts):
     """-> list of (class, detail)"""
     abbr = M.render(seq, labels)
     ro = real_options(opts)
     try:
-        out = expand(abbr, {'syntax': syntax, 'options': ro})
+        # the calls of one shard share one `cache` dict, as an editor session does: whatever a call leaves in it must not
+        # make a later call with other formatting options behave differently (a violation that needs the earlier calls is
+        # found again by the runner's shard replay)
+        out = expand(abbr, {'syntax': syntax, 'options': ro, 'cache': _SESSION_CACHE})
     except Exception as e:
         return abbr, [('exception:%s' % type(e).__name__, str(e)[:120])]
     bad = []
@@ -354,6 +360,7 @@ def cases(tier, si):
 
 
 def run_shard(shard, ctx, tier):
+    _SESSION_CACHE.clear()
     if shard['sweep'] == 'attrs':
         return run_attrs(shard, ctx)
     si, k, of = shard['sweep'], shard['k'], shard['of']
@@ -374,7 +381,8 @@ def run_shard(shard, ctx, tier):
                 ctx.validated += 1
                 for cls, dd in bad:
                     ctx.violation(cls, dict(seq=seq, labels=labels, syntax=syntax, options={'style-triple': True}), dd)
-                for opts in osets:
+                rot = k % len(osets)        # which option set meets the fresh session cache first differs from shard to shard
+                for opts in osets[rot:] + osets[:rot]:
                     ctx.states += 1
                     ctx.transitions += 1
                     ctx.evals += 1
